@@ -1,18 +1,30 @@
 #!/bin/sh
-# Extracts the Coq model to OCaml (into gen/) and builds the driver ./gbmodel.
+# Extracts the Coq model to OCaml and builds two drivers:
+#   gbmodel       Z/positive/N mapped to zarith big integers (ExtrOcamlBasic + ExtrOcamlZBigInt): fast
+#   gbmodel_pure  ExtrOcamlBasic only, numbers stay the extracted inductives: reference for spot checks
 # Assumes /verif/coq has been built (make).
 set -e
 cd "$(dirname "$0")"
-mkdir -p gen
-cd gen
-if [ ! -f .stamp ] || [ ../../coq/theories/Extract.v -nt .stamp ] || [ -n "$(find ../../coq/theories -maxdepth 1 -name '*.vo' -newer .stamp | head -1)" ]; then
-  rm -f *.ml *.mli
-  timeout 900 coqc -Q ../../coq/theories GB ../../coq/theories/Extract.v > extract.log 2>&1 || { cat extract.log; exit 1; }
-  touch .stamp
+TH=../../coq/theories
+need_extract() { # $1 = dir
+  [ ! -f "$1/.stamp" ] || [ "$TH/Extract.v" -nt "$1/.stamp" ] || [ -n "$(find $TH/.. -name '*.vo' -newer "$1/.stamp" 2>/dev/null | head -1)" ]
+}
+mkdir -p gen_pure gen_big
+if (cd gen_pure && need_extract .); then
+  (cd gen_pure && rm -f *.ml *.mli && timeout 900 coqc -Q $TH GB $TH/Extract.v > extract.log 2>&1 && touch .stamp) || { cat gen_pure/extract.log; exit 1; }
 fi
-cd ..
-if [ ! -x gbmodel ] || [ driver.ml -nt gbmodel ] || [ gen/.stamp -nt gbmodel ]; then
-  SRCS=$(ocamlfind ocamldep -sort -I gen gen/*.mli gen/*.ml)
-  ocamlfind ocamlopt -w -a -O3 -unboxed-types 2>/dev/null -I gen $SRCS driver.ml -o gbmodel 2>/dev/null || \
-  ocamlfind ocamlopt -w -a -inline 100 -I gen $SRCS driver.ml -o gbmodel
+if (cd gen_big && need_extract .); then
+  (cd gen_big && rm -f *.ml *.mli && \
+   sed 's/^From Coq Require Import Extraction ExtrOcamlBasic\./From Coq Require Import Extraction ExtrOcamlBasic ExtrOcamlZBigInt./' $TH/Extract.v > ExtractBig.v && \
+   timeout 900 coqc -Q $TH GB ExtractBig.v > extract.log 2>&1 && touch .stamp) || { cat gen_big/extract.log; exit 1; }
 fi
+build_one() { # $1 = gen dir, $2 = conv file, $3 = output, $4 = extra packages
+  if [ ! -x "$3" ] || [ driver.ml -nt "$3" ] || [ "$2" -nt "$3" ] || [ "$1/.stamp" -nt "$3" ]; then
+    cp "$2" "$1/conv.ml"
+    SRCS=$(ocamlfind ocamldep -sort -I "$1" "$1"/*.mli "$1"/*.ml | tr ' ' '\n' | grep -v '/conv.ml$' | tr '\n' ' ')
+    ocamlfind ocamlopt $4 -w -a -inline 100 -I "$1" $SRCS "$1/conv.ml" driver.ml -o "$3"
+    rm -f driver.cm* driver.o
+  fi
+}
+build_one gen_pure conv_pure.ml gbmodel_pure ""
+build_one gen_big conv_big.ml gbmodel "-package zarith -linkpkg"
